@@ -201,4 +201,98 @@ func c04r5(c *Ctx) {
 	if n == 0 {
 		c.Anchor(rule, "the store of ESDigitalToken.Properties by the freeze toggle")
 	}
+	// what is stored, judged in the calling context of the freeze entry point: the flag encoder's bytes with Frozen := the
+	// function object's own freeze flag — a constant of the registration, independent of what the entry said before (a toggle
+	// would un-freeze on a repeated freeze)
+	if r, ok := c.P.RegByName()["ESDTFreeze"]; ok && r.Entry != nil {
+		isPropStore := func(in ssa.Instruction) (string, bool) {
+			if st, ok := in.(*ssa.Store); ok {
+				if fa, ok := st.Addr.(*ssa.FieldAddr); ok && isFieldOf(fa, "esdt.ESDigitalToken", "Properties") {
+					if _, fresh := fa.X.(*ssa.Alloc); !fresh {
+						return "Properties", true
+					}
+				}
+			}
+			return "", false
+		}
+		nv := 0
+		for _, s := range c.P.EffectSites(r.Entry, "propstore", isPropStore) {
+			st := s.In.(*ssa.Store)
+			nv++
+			construct := "store " + s.Env.Term(st.Addr) + " [value] in " + s.Chain()
+			if why, ok := frozenSetFromOwnFlag(c, s.Env, st, r); ok {
+				c.OK(rule, FuncName(st.Parent()), construct, c.P.InstrPos(st), why)
+			} else {
+				c.FailX(Oblig{Rule: rule, Func: FuncName(st.Parent()), Construct: construct, Pos: c.P.InstrPos(st), Kind: "violation",
+					Detail:   "the frozen flag that is stored is not the freeze function's own constant: " + why + " — a repeated freeze can leave the account un-frozen, an un-freeze can freeze it",
+					Expected: "Properties = encode(flags with Frozen := the flag the function was registered with)"})
+			}
+		}
+		if nv == 0 {
+			c.Anchor(rule, "a store of Properties below ESDTFreeze")
+		}
+	}
+}
+
+// frozenSetFromOwnFlag: the value stored into Properties is the result of the flag encoder (a function that allocates bytes
+// and ORs masks in) called on a local flags object whose Frozen field is assigned, on the way, a boolean field of the
+// executing function object — the field that the constructor fills from the argument which is true for ESDTFreeze and false
+// for ESDTUnFreeze in the factory.
+func frozenSetFromOwnFlag(c *Ctx, e *Env, st *ssa.Store, entryReg Registration) (string, bool) {
+	call, ok := st.Val.(*ssa.Call)
+	if !ok || !writesFlagBytes(c.P, call.Call.StaticCallee(), 0) || len(call.Call.Args) == 0 {
+		return "the stored bytes are not produced by the flag encoder (" + e.Term(st.Val) + ")", false
+	}
+	obj, ok := call.Call.Args[0].(*ssa.Alloc)
+	if !ok || obj.Referrers() == nil {
+		return "the encoder is not applied to a local flags object", false
+	}
+	// the field of the receiver that holds the freeze flag
+	regs := c.P.RegByName()
+	fr, okF := regs["ESDTFreeze"]
+	un, okU := regs["ESDTUnFreeze"]
+	if !okF || !okU || fr.Ctor == nil || fr.Ctor != un.Ctor {
+		return "registrations of ESDTFreeze / ESDTUnFreeze not resolved", false
+	}
+	stores, _ := ctorStores(c.P, fr)
+	flagField := ""
+	for i, t := range fr.ArgTerms {
+		if i < len(un.ArgTerms) && t == "true" && un.ArgTerms[i] == "false" && stores[i] != "" {
+			flagField = stores[i]
+		}
+	}
+	if flagField == "" {
+		return "no constructor argument is true for ESDTFreeze and false for ESDTUnFreeze", false
+	}
+	want := "*P:" + paramName(entryReg.Entry.Params[0]) + "." + flagField
+	n := 0
+	for _, ref := range *obj.Referrers() {
+		fa, ok := ref.(*ssa.FieldAddr)
+		if !ok || fieldName(fa.X.Type(), fa.Field) != "Frozen" || fa.Referrers() == nil {
+			continue
+		}
+		for _, r2 := range *fa.Referrers() {
+			fs, ok := r2.(*ssa.Store)
+			if !ok || fs.Addr != ssa.Value(fa) {
+				continue
+			}
+			n++
+			if got := e.Term(fs.Val); got != want {
+				return "Frozen is set to " + got + ", not to " + want, false
+			}
+			if !fs.Block().Dominates(call.Block()) || fs.Block() == call.Block() && indexIn(fs) > indexIn(call) {
+				return "the assignment of Frozen does not precede the encoding on every path", false
+			}
+			// the decoded flags are loaded before the assignment, not after it
+			for _, ref3 := range *obj.Referrers() {
+				if ws, ok := ref3.(*ssa.Store); ok && ws.Addr == ssa.Value(obj) && instrReaches(st.Parent(), fs, ws, map[ssa.Instruction]bool{call: true}) {
+					return "the flags object is overwritten as a whole after Frozen was assigned", false
+				}
+			}
+		}
+	}
+	if n == 0 {
+		return "the Frozen field of the encoded flags is never assigned", false
+	}
+	return "Frozen := " + want + " (true for ESDTFreeze, false for ESDTUnFreeze in the factory), then encoded", true
 }
